@@ -35,7 +35,7 @@ Definition S_CROP := 7.      Definition S_SCAN := 8.      Definition S_FINISH :=
 Definition S_CDEF := 10.     Definition S_CSTART := 11.   Definition S_CSCAN := 12.
 Definition S_CFINISH := 13.  Definition S_RDCOEF := 14.   Definition S_WRCOEF := 15.
 Definition S_XTHROW := 16.   Definition S_MEMDEST := 17.  Definition S_NOIMAGE := 18.
-Definition S_RDCOEF2 := 19.  Definition S_CSTART2 := 20.
+Definition S_RDCOEF2 := 19.  Definition S_CSTART2 := 20.   Definition S_POSTHDR2 := 21.
 
 (* ------------------------------------------------------------ generated handlers *)
 Definition cond_expr (c : hcond) : expr :=
@@ -293,19 +293,28 @@ Definition prog_decompress (fx : fixes) (name : string) (selfc crop merged : boo
        else read_scanlines merged) ;;
       finish_decompress).
 
-(* --- tj3DecompressToYUVPlanes8 ------------------------------------------------ *)
+(* --- tj3DecompressToYUV8 -> tj3DecompressToYUVPlanes8 ---------------------------- *)
+(* the wrapper reads the header itself (handler 0) and then calls the planar function with
+   global_state = DSTATE_READY, which therefore does not read the header again (handlers 1, 2);
+   both bailout blocks abort when global_state > DSTATE_START *)
 Definition prog_decompress_yuv (selfc : bool) : prog :=
-  mk "tj3DecompressToYUVPlanes8"
+  mkprog
      (prologue ;; throw S_ARGS ;;
-      set_progress ;;
-      CSet (D "mem->max_memory_to_use") (P "maxMemory") ;;
       CSetjmp 0 ;; CSet warning (EA "warn") ;;
       CIf (ELe (EG gsd) (EC dstate_inheader)) (mem_src ;; header_or_tables selfc true CSkip) CSkip ;;
       set_decomp_parameters ;;
       throw S_POSTHDR ;;
+      (* tj3DecompressToYUVPlanes8 *)
+      prologue ;;
+      set_progress ;;
+      CSet (D "mem->max_memory_to_use") (P "maxMemory") ;;
+      CSetjmp 1 ;; CSet warning (EA "warn") ;;
+      CIf (ELe (EG gsd) (EC dstate_inheader)) (mem_src ;; header_or_tables selfc true CSkip) CSkip ;;
+      set_decomp_parameters ;;
+      throw S_POSTHDR2 ;;
       CSet (D "scale_num") (P "scalingFactor.num") ;; CSet (D "scale_denom") (P "scalingFactor.denom") ;;
       CDeref (D "comp_info") ;;
-      CSetjmp 1 ;;
+      CSetjmp 2 ;;
       CSet (D "do_fancy_upsampling") (ENot (P "fastUpsample")) ;;
       CSet (D "dct_method") (P "fastDCT") ;;
       CSet (D "raw_data_out") (EC 1) ;;
@@ -313,7 +322,9 @@ Definition prog_decompress_yuv (selfc : bool) : prog :=
       stage S_SCAN ;;
       seq (map (fun p => CDeref (D p)) ["comp_info"; "idct"; "coef"; "entropy"]) ;;
       CObs "planes" (EA "img") ;;
-      finish_decompress).
+      finish_decompress)
+     (handlers_of "tj3DecompressToYUV8" ++ handlers_of "tj3DecompressToYUVPlanes8")%list
+     (bailout_of "tj3DecompressToYUVPlanes8").
 
 (* --- tj3DecodeYUVPlanes8 ------------------------------------------------------- *)
 Definition prog_decode_yuv (fx : fixes) (merged : bool) : prog :=
